@@ -11,7 +11,7 @@
    Part 5: the statement of C02 on the model: [parse T text] is Accept or Reject for every text. *)
 From Coq Require Import String.
 From Coq Require Import List NArith Bool Arith Lia.
-From SV Require Import Bytes Lexer Tables ArgCheck Machine GenTables.
+From SV Require Import Bytes Lexer Tables ArgCheck Machine GenTables PositionFacts.
 Import ListNotations.
 Local Open Scope nat_scope.
 
@@ -940,10 +940,17 @@ Proof.
   split; [lia|]. split; [lia|]. split; [discriminate|discriminate].
 Qed.
 
-Definition res_inv (r : mres) : Prop :=
+(* what is known about the state in which a token is delivered again: it was a '{', a command is
+   current, and that command does not reassign its arguments *)
+Definition rw_ok (t : token) (st' : pstate) : Prop :=
+  t_kind t = TLeftCBracket /\ p_cstate st' = CArgs /\
+  exists top' r', p_stack st' = top' :: r' /\ d_non_deterministic_args (f_def top') = false.
+
+Definition res_inv (t : token) (r : mres) : Prop :=
   match r with
   | MCrash => False
-  | MTrue st' | MRewind st' => Inv st'
+  | MTrue st' => Inv st'
+  | MRewind st' => Inv st' /\ rw_ok t st'
   | _ => True
   end.
 
@@ -1181,7 +1188,8 @@ Proof. intros [] b; reflexivity. Qed.
 Definition hpost (st : pstate) (e : option (list tkind)) (t : token) (r : mres) : Prop :=
   match r with
   | MCrash => False
-  | MTrue st' | MRewind st' => Inv st'
+  | MTrue st' => Inv st'
+  | MRewind st' => Inv st' /\ rw_ok t st'
   | MFalse st1 =>
       (t_kind t = TLeftCBracket \/ t_kind t = TSemicolon) ->
       LiveE st1 e /\ p_expected st1 = None /\ p_cstate st1 = p_cstate st
@@ -1486,12 +1494,18 @@ Proof.
       pose proof (cc_live (replace_top cur' st) false HLive) as C.
       rewrite Hcr in C.
       assert (X := C ltac:(discriminate) ltac:(discriminate) ltac:(discriminate)).
-      assert (Y : match check_completion (replace_top cur' st) false with MTrue st' => Live st' | _ => False end).
-      { assert (Z := X ltac:(intros c r Ec Hnt; exfalso; unfold replace_top in Ec; rewrite Es in Ec; pcbn_in Ec;
-                                inversion Ec; subst c; unfold is_test in Hnt; rewrite Hd in Hnt;
-                                unfold is_ctest in Hct; destruct (d_type (f_def cur)); discriminate)).
-        destruct (check_completion (replace_top cur' st) false); try contradiction. apply Z. }
-      destruct (check_completion (replace_top cur' st) false); try contradiction. cbn. right. exact Y.
+      assert (Htc' : is_test cur' = true).
+      { unfold is_test. rewrite Hd. unfold is_ctest in Hct. destruct (d_type (f_def cur)); try discriminate; reflexivity. }
+      assert (Hst' : p_stack (replace_top cur' st) = cur' :: rest) by (unfold replace_top; rewrite Es; reflexivity).
+      assert (Y : match check_completion (replace_top cur' st) false with
+                  | MTrue st' => Live st' /\ rw_ok t st' | _ => False end).
+      { assert (Z := X ltac:(intros c r Ec Hnt; exfalso; rewrite Hst' in Ec; inversion Ec; subst c; congruence)).
+        destruct (check_completion (replace_top cur' st) false); try contradiction.
+        destruct Z as (Z1 & Z2 & _ & Z4). split; [exact Z1|].
+        unfold rw_ok. split; [exact Ek|]. split; [exact Z2|].
+        apply (Z4 cur' rest Hst' Htc'). apply negb_false_iff. exact Enc. }
+      destruct (check_completion (replace_top cur' st) false); try contradiction.
+      cbn. destruct Y as (Y1 & Y2). split; [right; exact Y1|exact Y2].
   - (* '}' *) unfold m_argument. rewrite Es, Ek. cbn. intros [H|H]; rewrite Ek in H; discriminate.
   - (* ';' *) unfold m_argument. rewrite Es, Ek. cbn. intros _. split; [exact HL|]. split; [exact He|reflexivity].
   - (* ',' *)
@@ -1631,7 +1645,7 @@ Definition after_handler (t : token) (r : mres) : mres :=
   end.
 
 Lemma after_handler_post : forall st e t r,
-  p_cstate st <> CNone -> hpost st e t r -> res_inv (after_handler t r).
+  p_cstate st <> CNone -> hpost st e t r -> res_inv t (after_handler t r).
 Proof.
   intros st e t r Hcs H. unfold after_handler.
   destruct r as [st'|st'|st1|err|]; try exact H; try exact I.
@@ -1682,7 +1696,7 @@ Qed.
 Lemma m_command_post : forall T st e t,
   twf_tables T = true ->
   LiveE st e -> p_expected st = None -> passes e (t_kind t) ->
-  res_inv (m_command T st t).
+  res_inv t (m_command T st t).
 Proof.
   intros T st e t HT HL He Hp. pose proof HL as (L1 & L2 & L3 & L4 & L5 & L6 & L7).
   unfold m_command. destruct (p_cstate st) eqn:Hcs.
@@ -1790,11 +1804,11 @@ Proof.
         -- destruct (d_accept_children (f_def cur)) eqn:Ech; [|exact I].
            cbn. apply (Hfin AtChild (cur :: rest)); auto. right. exists cur, rest. auto.
   - (* inside the arguments of a command *)
-    change (res_inv (after_handler t (m_arguments T st t))).
+    change (res_inv t (after_handler t (m_arguments T st t))).
     apply (after_handler_post st e t); [rewrite Hcs; discriminate|].
     apply m_arguments_post; assumption.
   - (* inside a string list *)
-    change (res_inv (after_handler t (m_stringlist st t))).
+    change (res_inv t (after_handler t (m_stringlist st t))).
     apply (after_handler_post st e t); [rewrite Hcs; discriminate|].
     apply m_stringlist_post; assumption.
 Qed.
@@ -1824,10 +1838,10 @@ Qed.
 
 (* Part 3, main theorem: the invariant is preserved by every step and no step crashes *)
 Theorem process_inv : forall T st t,
-  twf_tables T = true -> Inv st -> res_inv (process T st t).
+  twf_tables T = true -> Inv st -> res_inv t (process T st t).
 Proof.
   intros T st t HT HI. unfold process.
-  assert (G : res_inv match p_expected st with
+  assert (G : res_inv t match p_expected st with
                       | Some l => if kind_mem (t_kind t) l then m_command T (with_expected None st) t else MErr EExpected
                       | None => m_command T st t
                       end).
@@ -1847,3 +1861,127 @@ Proof.
   - cbn. apply inv_with_hash. exact HI.
   - cbn. exact HI.
 Qed.
+
+(* ====================================================================================== *)
+(* Part 4: fuel                                                                            *)
+(* ====================================================================================== *)
+
+(* every token takes at least one byte: there are at most as many tokens as bytes *)
+Lemma lex_all_count : forall fl pos l toks err,
+  lex_all fl pos l = (toks, err) -> length toks <= length l.
+Proof.
+  induction fl as [|f IH]; intros pos l toks err H; cbn [lex_all] in H.
+  - inversion H. cbn. lia.
+  - destruct (next_token pos l) as [|t after|p] eqn:E.
+    + inversion H. cbn. lia.
+    + destruct (lex_all f (t_pos t + length (t_val t)) after) as [ts e] eqn:E2. inversion H; subst.
+      destruct (next_token_progress _ _ _ _ E) as (P1 & _). specialize (IH _ _ _ _ E2). cbn [length]. lia.
+    + inversion H. cbn. lia.
+Qed.
+
+Theorem token_count : forall text, length (fst (lex text)) <= length text.
+Proof.
+  intro text. unfold lex. destruct (lex_all (S (length text)) 0 text) as [toks err] eqn:E.
+  cbn [fst]. apply (lex_all_count _ _ _ _ _ E).
+Qed.
+
+(* the token delivered again after a rewind is not rewound a second time *)
+Lemma no_double_rewind : forall T st t st2, rw_ok t st -> process T st t <> MRewind st2.
+Proof.
+  intros T st t st2 (Ek & Hcs & top' & r' & Es & Hnd).
+  assert (G : forall st0, p_cstate st0 = CArgs -> p_stack st0 = top' :: r' -> m_command T st0 t <> MRewind st2).
+  { intros st0 Hc0 Es0. unfold m_command. rewrite Hc0. unfold m_arguments. rewrite Ek.
+    unfold m_argument. rewrite Es0, Ek, Hnd. rewrite Es0.
+    destruct (is_control top' && d_accept_children (f_def top') && iscomplete top' None); discriminate. }
+  unfold process. rewrite Ek.
+  destruct (p_expected st) as [l|].
+  - destruct (kind_mem TLeftCBracket l); [|discriminate]. apply G; assumption.
+  - apply G; assumption.
+Qed.
+
+Definition measure (n : nat) (rewound : bool) : nat := 2 * n + (if rewound then 0 else 1).
+
+(* Part 4/5 main lemma: from a state satisfying the invariant, the machine over the token list ends in
+   Accept or Reject within 2 * (number of tokens) + 2 steps *)
+Lemma run_tokens_total : forall T fuel toks err endpos lastlen st rewound,
+  twf_tables T = true -> Inv st ->
+  (rewound = true -> match toks with t :: _ => rw_ok t st | [] => False end) ->
+  measure (length toks) rewound < fuel ->
+  match run_tokens fuel T toks err endpos lastlen st with
+  | Accept _ | Reject _ _ _ => True
+  | Crash _ | OutOfFuel => False
+  end.
+Proof.
+  intros T. induction fuel as [|f IH]; intros toks err endpos lastlen st rewound HT HI Hrw Hm; [lia|].
+  destruct toks as [|t ts].
+  - rewrite run_tokens_S_nil. destruct err; [exact I|].
+    unfold finish. destruct (match p_brackets st with b :: _ => Some [closing_kind b] | [] => p_expected st end); [exact I|].
+    destruct (p_stack st); exact I.
+  - rewrite run_tokens_S_cons.
+    pose proof (process_inv T st t HT HI) as P.
+    destruct (process T st t) as [st'|st'|st'|e|] eqn:Ep; try exact I; try contradiction.
+    + apply (IH ts err endpos (length (t_val t)) st' false HT P); [discriminate|].
+      unfold measure in *. cbn [length] in Hm. destruct rewound; lia.
+    + destruct P as (P1 & P2).
+      destruct rewound.
+      * exfalso. apply (no_double_rewind T st t st' (Hrw eq_refl)). exact Ep.
+      * apply (IH (t :: ts) err endpos (length (t_val t)) st' true HT P1); [intros _; exact P2|].
+        unfold measure in *. cbn [length] in *. lia.
+Qed.
+
+(* ====================================================================================== *)
+(* Part 5: C02 on the model                                                                *)
+(* ====================================================================================== *)
+
+Theorem parse_total : forall T text,
+  twf_tables T = true ->
+  match parse T text with
+  | Accept _ | Reject _ _ _ => True
+  | Crash _ | OutOfFuel => False
+  end.
+Proof.
+  intros T text HT. rewrite parse_run_tokens.
+  apply (run_tokens_total T _ _ _ _ _ p_init false HT Inv_init); [discriminate|].
+  unfold measure. pose proof (token_count text). lia.
+Qed.
+
+Corollary parse_total_gen : forall text,
+  match parse gen_tables text with
+  | Accept _ | Reject _ _ _ => True
+  | Crash _ | OutOfFuel => False
+  end.
+Proof. intro text. apply parse_total. apply twf_gen_tables. Qed.
+
+(* the number of machine steps is linear in the input: the fuel 2 * length text + 2 is never used up;
+   stated positively: parse with any larger fuel gives the same answer (no dependence on the fuel) *)
+Theorem verdict_is_bool : forall T text, twf_tables T = true ->
+  (exists r, parse T text = Accept r) \/ (exists e pos tlen, parse T text = Reject e pos tlen).
+Proof.
+  intros T text HT. pose proof (parse_total T text HT) as H.
+  destruct (parse T text) as [r|e p l|p|]; try contradiction; [left|right]; eauto.
+Qed.
+
+(* a rejection comes with a position inside the text, hence a line number between 1 and 1 + number of LF *)
+Theorem reject_line_in_range : forall T text e pos tlen,
+  parse T text = Reject e pos tlen ->
+  pos <= length text /\ 1 <= lineno text pos /\ lineno text pos <= 1 + count_lf text.
+Proof.
+  intros T text e pos tlen H.
+  destruct (error_pos_address T text e pos tlen H) as (_ & Hpos & _).
+  split; [exact Hpos|]. unfold lineno. split; [lia|].
+  assert (count_lf (firstn pos text) <= count_lf text).
+  { rewrite <- (firstn_skipn pos text) at 2. unfold count_lf. rewrite filter_app, app_length. lia. }
+  lia.
+Qed.
+
+(* the hypothesis on the tables is needed: the table of PositionFacts.parse_can_run_out_of_fuel violates it *)
+Example twf_needed :
+  twf (mkCmd [120%N] CAction [] false false true None None None HNone RHasflag) = false.
+Proof. vm_compute. reflexivity. Qed.
+
+Print Assumptions process_inv.
+Print Assumptions parse_total.
+Print Assumptions parse_total_gen.
+Print Assumptions verdict_is_bool.
+Print Assumptions reject_line_in_range.
+Print Assumptions token_count.
